@@ -8,6 +8,7 @@ import (
 var plMu sync.Mutex
 
 // holder returns the calling goroutine's task if it holds the token, else nil.
+//go:norace
 func (s *Sim) holder() *Task {
 	if s == nil {
 		return nil
@@ -39,6 +40,7 @@ type IOAction struct {
 
 // IO is called by simos/simldb before a mutating operation. It is a scheduling point.
 // A dead task never returns from it.
+//go:norace
 func IO(kind, path string, off int64, n int) (IOAction, *Sim) {
 	s := cur.Load()
 	if s == nil {
@@ -69,6 +71,7 @@ func IO(kind, path string, off int64, n int) (IOAction, *Sim) {
 
 // Die kills the calling task's node and terminates the calling task (used by the
 // simulated disk to realise CrashBefore/CrashAfter).
+//go:norace
 func Die() {
 	s := cur.Load()
 	if s == nil {
@@ -109,6 +112,7 @@ func NodeLocal(name string, mk func() interface{}) interface{} {
 
 var passThroughLocals = map[nlKey]interface{}{}
 
+//go:norace
 func NodeLocalFor(node int, name string, mk func() interface{}) interface{} {
 	raceOff()
 	defer raceOn()
@@ -136,6 +140,7 @@ func NodeLocalFor(node int, name string, mk func() interface{}) interface{} {
 // IOManaged is like IO but does nothing when the caller is not a managed task
 // (e.g. goleveldb's own background goroutines) and never terminates the caller: the
 // caller is inside third-party code holding its locks; it dies at its next yield.
+//go:norace
 func IOManaged(kind, path string, off int64, n int) (IOAction, *Sim) {
 	s := cur.Load()
 	if s == nil {
@@ -160,6 +165,7 @@ func IOManaged(kind, path string, off int64, n int) (IOAction, *Sim) {
 }
 
 // KillCurrentNode kills the node of the calling task without terminating the caller.
+//go:norace
 func KillCurrentNode() {
 	s := cur.Load()
 	if s == nil {
